@@ -1,6 +1,6 @@
 CONSTANTS
   Collisions = {"none", "not3", "xy3"}
-  Spellings = {"merged", "split", "apart"}
+  Spellings = {"after_list", "between_lists", "merged", "split", "apart"}
   Idents = {"UserId", "A", "Foo", "FooBar", "HTTPServer", "URL", "Init", "Default", "None"}
   Renames = {"empty", "none", "x", "foo-bar", "init", "$ref"}
   Kinds = {"unit", "newtype", "struct"}
